@@ -135,7 +135,7 @@ Qed.
 (* ---- the register that Set leaves in a FRESH receiver ---- *)
 Definition copy_of (k : kind) (ra : Reg A) : Reg A :=
   let n := rn ra in let o := rorder ra in
-  let r1 := mkReg k (rndk r32 k (rval ra)) o 0 [] [] in
+  let r1 := mkReg k (rndk r32 k (rval ra)) 0 0 [] [] in
   let r2 := alloc F r1 n o in
   if 1 <=? o then
     let r3 := fold_left (fun r i => set_d r32 r i (gd F ra i)) (seq 0 n) r2 in
@@ -144,7 +144,7 @@ Definition copy_of (k : kind) (ra : Reg A) : Reg A :=
   else r2.
 
 Lemma alloc_fresh_shape k v o n :
-  let r2 := alloc F (mkReg k v o 0 [] []) n o in
+  let r2 := alloc F (mkReg k v 0 0 [] []) n o in
   rk r2 = k /\ rval r2 = v /\ rorder r2 = o /\ rn r2 = n /\
   (1 <= o -> length (rderiv r2) = n) /\
   (2 <= o -> length (rhess r2) = n /\ forall i, i < n -> length (nth i (rhess r2) []) = n).
@@ -164,9 +164,9 @@ Proof.
   set (s0 := upd s c (null_reg F k)).
   assert (Ea : s0 a = s a). { unfold s0, upd. destruct (Nat.eqb a c) eqn:E; [apply Nat.eqb_eq in E; contradiction|reflexivity]. }
   assert (Ec : s0 c = null_reg F k). { unfold s0, upd. rewrite Nat.eqb_refl. reflexivity. }
-  simpl rd. rewrite Ea, Ec. simpl rk. simpl rn. simpl rderiv. simpl rhess.
+  simpl rd. rewrite Ea, Ec. simpl rk. simpl rn. simpl rorder. simpl rderiv. simpl rhess.
   set (ra := s a). set (n := rn ra). set (o := rorder ra).
-  set (r2 := alloc F (mkReg k (rndk r32 k (rval ra)) o 0 [] []) n o).
+  set (r2 := alloc F (mkReg k (rndk r32 k (rval ra)) 0 0 [] []) n o).
   destruct (alloc_fresh_shape k (rndk r32 k (rval ra)) o n) as (Sk & Sv & So & Sn & Sd & Sh). fold r2 in Sk, Sv, So, Sn, Sd, Sh.
   unfold copy_of. fold ra n o r2. rewrite So.
   destruct (1 <=? o) eqn:O1.
@@ -230,7 +230,7 @@ Lemma copy_of_obs k ra :
   (forall i j, i < rn ra -> j < rn ra -> gh F r i j = if 2 <=? rorder ra then rndk r32 k (gh F ra i j) else zero).
 Proof.
   unfold copy_of. set (n := rn ra). set (o := rorder ra).
-  set (r2 := alloc F (mkReg k (rndk r32 k (rval ra)) o 0 [] []) n o).
+  set (r2 := alloc F (mkReg k (rndk r32 k (rval ra)) 0 0 [] []) n o).
   destruct (alloc_fresh_shape k (rndk r32 k (rval ra)) o n) as (Sk & Sv & So & Sn & Sd & Sh). fold r2 in Sk, Sv, So, Sn, Sd, Sh.
   destruct (1 <=? o) eqn:O1.
   - apply Nat.leb_le in O1. rewrite fold_set_d.
